@@ -1,9 +1,9 @@
 SPECIFICATION Spec
 CONSTANTS P = {"a", "b", "c"}
-          Kind = "round"
+          Kinds = {"round", "save", "valid"}
           ThrVals = {0, 1, 2, 3}
           CtVals = {0, 1, 3}
           StLen = 2
-          OLen = 0
-          MaxVals = {0}
+          OLen = 3
+          MaxVals = {0, 1, 2, 3}
 CHECK_DEADLOCK FALSE
